@@ -23,7 +23,7 @@ if [ "${SKIP_TESTS:-0}" != "1" ]; then
   tests=$(PYTHONPATH="$S/src" /venv/bin/python -m pytest -q -p no:cacheprovider -n ${NTEST:-4} 2>&1 | tail -1 | sed 's/ in [0-9.]*s.*//')
 fi
 res=""
-cd /verif
+cd "${VERIF_DIR:-/verif}"
 for c in $CHECKS; do
   t0=$(date +%s)
   out=$(FV_REPO="$S" FV_JOBS=${FV_JOBS:-16} ./check $c --tier ${TIER:-quick} --no-evidence 2>&1)
